@@ -310,6 +310,8 @@ def run(ctx):
         "fairness of the OS scheduler for every 'eventually' conclusion (the theorems give bounded progress once the enabled thread is scheduled)",
         "a reader handle is used by one thread at a time; one writer thread",
     ]
+    from . import platconf
+    platconf.run(ctx)        # the real platform.c keeps the contract detsched stands for: notify_all wakes every waiter, join waits, ...
     exe = build(ctx)
     if not exe:
         return
